@@ -5,9 +5,41 @@ PROPS = [f"C{i:02d}" for i in range(1, 21)]
 NOTE = ("Trusted: Lean 4.33 kernel (axioms propext/Classical.choice/Quot.sound only, audited each run), the translators in gen/, "
         "the correspondence harness (sampling + small-scope enumeration ties the hand-written model to the code), the compiled Lean driver; "
         "dnaio/xopen/CPython/Cython/OS are modelled, not verified (DESIGN.md §8).")
+PIPE = ("Model of the whole read-processing pipeline (Records/Modifiers/Pipeline/Assembly/Stats.lean) tied to the code by running the real cutadapt.cli.main and the compiled "
+        "model on the same random command lines and reads (files, info/rest/wildcard rows, statistics compared; 0 differences required). ")
 CLAIMED = {
- "C01": dict(text="Lean theorems over the model of Aligner.locate / PrefixComparer / SuffixComparer and the eight adapter classes: locate_sound (column invariant of the banded DP incl. stale cells, early exit and last-column search) and matchTo_sound: every reported match lies inside read and adapter, obeys the documented placement rule of its type, covers the minimum overlap, is witnessed by an alignment of cost <= errors under the documented wildcard relation (tables_match_documentation re-checks the regenerated match tables against the documented IUPAC sets by kernel computation), and errors <= thr(non-N aligned adapter bases); noindel_is_hamming. The half 'errors is minimal' is stated (errors_minimal_statement) and decided by the brute-force oracle only until dp_exact is finished (partial). Model tied to the code by differential runs of locate/comparers/match_to.",
-             ref="§7 C01", technique="Lean 4 proof (DP column invariant by induction over columns/rows) + correspondence + brute-force oracle for the minimality half"),
+ "C01": dict(text="Lean theorems over the model of Aligner.locate / PrefixComparer / SuffixComparer and the eight adapter classes: locate_sound (column invariant of the banded DP incl. stale cells, early exit, last-column search), dp exactness (errors_minimal), matchTo_sound and matchTo_errors_is_distance: every reported match lies inside read and adapter, obeys the documented placement rule, covers the minimum overlap, errors is the exact weighted edit distance under the documented wildcard relation (tables_match_documentation re-checks the regenerated match tables by kernel computation) and errors <= thr(non-N aligned bases); noindel_is_hamming. Model tied to the code by differential runs of locate/comparers/match_to.",
+             ref="§7 C01", technique="Lean 4 proof (DP column invariant, Ukkonen band exactness) + correspondence + brute-force oracle"),
+ "C02": dict(text="Lean theorems over the same model: exact_occurrence_found, noindel_complete, indel_complete (types that cannot skip the adapter start), anchored5/3_exact_removed_exactly, back_cut_before_leftmost_copy, front_cut_before_end_of_leftmost_copy, rightmost_cut_after_rightmost_copy, occ_of_match - all unbounded, via exactness of the banded DP and completeness of the last-row/last-column search. Brute-force enumeration of admissible occurrences as oracle.",
+             ref="§7 C02", technique="Lean 4 proof (dp_exact + search completeness) + correspondence + brute-force oracle"),
+ "C03": dict(text=PIPE + "Theorems: trimming modifiers return the same segment of sequence and qualities, action semantics (trim/retain/crop/none/mask/lowercase), remainder, rounds, pipeline output is a slice (see Properties/C03.lean for the list proved). Oracle: every output record located in its input record.",
+             ref="§7 C03", technique="Lean 4 proof (segment algebra, case analysis per modifier, induction over rounds) + pipeline-level correspondence"),
+ "C04": dict(text=PIPE + "Theorems: each read has exactly one fate event (written by the last step or counted by exactly one filter), counts add up (summarize is a monoid homomorphism over the event log), report categories complete. Oracle: record counts of the produced files against the JSON report.",
+             ref="§7 C04", technique="Lean 4 proof (invariant over the step fold / read fold) + pipeline-level correspondence"),
+ "C05": dict(text=PIPE + "Theorems: paired writes carry both mates in input order, pair decision table (any/both/first, one-sided bounds), forced 'both' for untrimmed filters, --pair-adapters both-or-neither with argmax rule. Oracle: id agreement of every file pair, recomputed pair decisions.",
+             ref="§7 C05", technique="Lean 4 proof + pipeline-level correspondence (paired)"),
+ "C07": dict(text="Model of kmer_heuristic.py and _kmer_finder.pyx; theorems shift_and_correct(_entry), kmers_present_spec, kmer_chunks_spec, pigeonhole_script, prefilter_only_removes, prefilter_safe_partial (explicit side condition) and proved counterexamples for the two recorded findings (anywhere adapter with the read inside the adapter; NUL byte vs N wildcard). The full statement prefilter_safe_statement is false on the current tree (prefilter_not_safe). Oracle: real finder vs always-true finder on the same adapter.",
+             ref="§7 C07", technique="Lean 4 proof (bit-parallel invariant, pigeonhole over edit scripts) + correspondence; partial: full safety is refuted, two known findings"),
+ "C08": dict(text="Model of hamming_sphere, edit_environment, AdapterIndex; theorems hamming_sphere_spec, edit_environment_sound/upper, index fold invariant and lookup soundness (see Properties/C08.lean). Oracle: soundness, uniqueness and agreement with one-by-one search incl. permutations.",
+             ref="§7 C08", technique="Lean 4 proof + correspondence (hsphere/editenv/indexlookup ops)"),
+ "C09": dict(text=PIPE + "Theorems: best_is_argmax, best_none_iff, rounds_spec, nontrim_actions_once, linked adapter semantics (linked_none_iff, back searched in remainder, not counted unless matched), with_adapters_iff_match. Oracle: rules recomputed from single-adapter matches.",
+             ref="§7 C09", technique="Lean 4 proof (fold invariants) + pipeline-level correspondence"),
+ "C10": dict(text=PIPE + "Theorems: stage_order_single/paired for every option record, makeMods_is_documented_composition, Kleisli composition of runMods, rename_zeroCap_commute, routing; the real modifier/step class sequence is regenerated from cli.py on every run (gen_stageorder.py) and proved equal to the documented order and to the model's assembly by decide. Oracle: option permutation invariance, reference composition, routing.",
+             ref="§7 C10", technique="Lean 4 proof + regenerated stage order (translator) + pipeline-level correspondence"),
+ "C11": dict(text=PIPE + "Theorems: filter order of makeSteps, first applicable filter consumes, criteria of every predicate (see Properties/C11.lean). Oracle: destination of each read recomputed from the documented criteria in order with thresholds at the reads' own values.",
+             ref="§7 C11", technique="Lean 4 proof + pipeline-level correspondence (bit-exact floats)"),
+ "C15": dict(text=PIPE + "Theorems: demultiplexer routing (single, paired, combinatorial), writers opened per name, partition of the plain output (List.Perm) (see Properties/C15.lean). Oracle: created files, expected file per read, multiset equality with the non-demultiplexed run.",
+             ref="§7 C15", technique="Lean 4 proof + pipeline-level correspondence"),
+ "C16": dict(text=PIPE + "Theorems: revcomp stage is total, keeps the forward result unless the reverse complement has a match and a strictly higher score, tie keeps forward, uses trimmed reverse complement with suffix/isRc/counter otherwise; paired variants (see Properties/C16.lean). Oracle: stage recomputed with real AdapterCutter objects.",
+             ref="§7 C16", technique="Lean 4 proof (case analysis) + pipeline-level correspondence"),
+ "C17": dict(text=PIPE + "Theorems: one row per read, row shape, fields concatenate, middle field = current[rstart:rstop]; the clause 'middle field is the aligned stretch' is false on the current tree in two recorded input classes (counterexample proved, partial theorem under the explicit side condition). Oracle: rows replayed against the input reads.",
+             ref="§7 C17", technique="Lean 4 proof + pipeline-level correspondence; partial: two known findings"),
+ "C18": dict(text="Model of parser.py (specification grammar, search parameters, brace expansion, linked adapters, file variants, rejections) with round-trip / precedence / rejection theorems (see Properties/C18.lean); correspondence of parsespec/expandbraces/parseparams against the real parser on grammar-generated and malformed specs; independent reference written from the documentation.",
+             ref="§7 C18", technique="Lean 4 proof (structural induction over the grammar) + correspondence"),
+ "C19": dict(text="Model of the output-format decision and of interleaving; theorems format_by_name, format_independent_of_proxy, format_independent_of_compression_suffix, fasta/fastq_names, fasta_forced_on_stdout, format_fallback, deinterleave_interleave. Compression codecs and dnaio readers/writers are libraries: container transparency is validated by the command-line matrix (container x layout x name x cores), not proved. One known finding (interleaved FASTA input with several cores).",
+             ref="§7 C19", technique="Lean 4 proof (format decision) + CLI matrix; partial: codecs are library parameters"),
+ "C20": dict(text=PIPE + "Theorems: stats_are_tally (per-adapter histograms, adjacent bases, 5'/3' split, reverse-complement counter equal counts over applied matches), total_matches, error_ranges_spec/last/entry for monotone thr. Oracle: ErrorRanges vs int(L*rate); JSON report vs tally of info-file rows.",
+             ref="§7 C20", technique="Lean 4 proof (fold induction) + correspondence (eranges op, pipeline statistics)"),
  "C13": dict(text="Lean theorems (trim3_spec, trim5_spec, combine, all_good_unchanged, all_bad_empty, base_shift_invariant, nextseq_spec, "
                   "trimmed_bases_count) prove the BWA specification for every quality string, cutoff and base over the model of qualtrim.pyx; "
                   "the model is tied to the code by a differential run of quality_trim_index/nextseq_trim_index/QualityTrimmer against the compiled model, "
@@ -34,7 +66,7 @@ man = dict(
                   kind_free_text="Lean 4 library: executable model of cutadapt + property theorems; compiled line-protocol driver; Python correspondence harness and oracles in harness/")],
     checks=checks,
     notes="See DESIGN.md. ./check <id> quick|thorough; exit 0 held, 1 violation, 2 infrastructure failure.",
-    not_applicable=[dict(property_id=p, reason="no check registered in this revision yet (model/theorems under construction; see DESIGN.md §13)") for p in PROPS if p not in CLAIMED],
+    not_applicable=[dict(property_id=p, reason="check under construction in this revision (model, theorems and deterministic simulation of runners.py are being built; see DESIGN.md §7); not claimed until it runs clean") for p in PROPS if p not in CLAIMED],
 )
 json.dump(man, open(os.path.join(VERIF, "MANIFEST.json"), "w"), indent=1)
 print("claimed", sorted(CLAIMED))
